@@ -14,6 +14,9 @@ import (
 // exploration is active, loops use the sorted order so that replay is deterministic.
 var Controlled bool
 
+// Instrumented is set by an overlay-added file: the binary was built with rewritten sources.
+var Instrumented bool
+
 // Concurrent turns function-entry scheduling points on (C08/C18 interleaving parts).
 var Concurrent bool
 
